@@ -158,12 +158,85 @@ func c16p5shutdownEdge(pred, succ *ssa.BasicBlock) bool {
 			continue
 		}
 		for _, side := range []ssa.Value{b.X, b.Y} {
-			if k, isK := side.(*ssa.Const); isK && strings.HasSuffix(typeStr(k.Type()), "connectivity.State") && k.Int64() == 4 {
+			if c16p6isShutdown(side) {
 				return true
 			}
 		}
 	}
+	// the comparison extracted into a predicate over the connection or its state (isDead(cs), gone(state)): the edge on
+	// which the predicate gives a verdict it gives only for a connection that is shut down
+	for _, ft := range appendCondFacts(nil, iff.Cond, pred.Succs[0] == succ, 0) {
+		call, ok := ft.Cond.(*ssa.Call)
+		if !ok {
+			continue
+		}
+		sc := call.Call.StaticCallee()
+		if sc == nil || !isRepoFn(sc) || typeStr(call.Type().Underlying()) != "bool" {
+			continue
+		}
+		about := false
+		for _, a := range call.Call.Args {
+			about = about || holdsClientConn(a.Type(), 0) || strings.HasSuffix(typeStr(a.Type()), "connectivity.State")
+		}
+		if about && c16p5onlyWhenShutdown(unwrap(sc), ft.Truth, 0) {
+			return true
+		}
+	}
 	return false
+}
+
+// c16p5onlyWhenShutdown: the bool predicate g returns verdict only where a connectivity.State equals Shutdown: every
+// return that can yield verdict is the comparison itself (in the right sense), a constant reached only over such an
+// edge, or the verdict of another such predicate.
+func c16p5onlyWhenShutdown(g *ssa.Function, verdict bool, depth int) bool {
+	if g == nil || len(g.Blocks) == 0 || depth > 2 {
+		return false
+	}
+	n, ok := 0, true
+	eachInstr(g, func(i ssa.Instruction) {
+		r, isR := i.(*ssa.Return)
+		if !isR || !ok {
+			return
+		}
+		if len(r.Results) != 1 {
+			ok = false
+			return
+		}
+		v, want := r.Results[0], verdict
+		for {
+			u, isNot := v.(*ssa.UnOp)
+			if !isNot || u.Op != token.NOT {
+				break
+			}
+			v, want = u.X, !want
+		}
+		if bv, isK := constBool(v); isK {
+			if bv != want {
+				return // cannot yield the verdict
+			}
+			n++
+			if c16p5reach(g.Blocks[0], 0, nil, r) {
+				ok = false
+			}
+			return
+		}
+		n++
+		switch x := v.(type) {
+		case *ssa.BinOp:
+			sd := c16p6isShutdown(x.X) || c16p6isShutdown(x.Y)
+			if !(sd && (x.Op == token.EQL && want || x.Op == token.NEQ && !want)) {
+				ok = false
+			}
+		case *ssa.Call:
+			sc := x.Call.StaticCallee()
+			if sc == nil || !isRepoFn(sc) || !c16p5onlyWhenShutdown(unwrap(sc), want, depth+1) {
+				ok = false
+			}
+		default:
+			ok = false
+		}
+	})
+	return ok && n > 0
 }
 
 // c16p5verdictCovered: every return of the predicate g that can yield verdict passes, from g's entry, a close (or the
